@@ -5,7 +5,7 @@ pid = sys.argv[1]
 wt = sys.argv[2] if len(sys.argv) > 2 else f"/tmp/mut/{pid}"
 extra = sys.argv[3] if len(sys.argv) > 3 else ""
 import os
-prevs = [f"/verif/seeded/{pid}{suf}/meta.json" for suf in ("", "b", "c", "d", "e", "f", "g", "h", "i", "j", "k", "l")]
+prevs = [f"/verif/seeded/{pid}{suf}/meta.json" for suf in ("", "b", "c", "d", "e", "f", "g", "h", "i", "j", "k", "l", "m")]
 prevs = [q for q in prevs if os.path.exists(q)]
 if prevs and any(f"/mut{k}/" in wt for k in range(2, 30)):
     if "/mut2/" in wt:
